@@ -22,7 +22,9 @@ META = dict(
         "properties.keys() chained with the remaining required names in that order and hands the items, in "
         "that order, to ordered_sequence; and the resolved dependency graph enables serde_json's "
         "`preserve_order` feature for the llguidance package (without it serde_json::Map is a BTreeMap and the "
-        "schema's order is lost before the compiler sees it)."
+        "schema's order is lost before the compiler sees it); R2 the speculative row re-use watermark is reset to the "
+        "current row count by every writer, so a merged multi-lexeme token of a valid instance is not dropped from the mask "
+        "because a row of a sibling trie branch was re-used."
     ),
     not_decided="absence of over-strictness in general (the whole grammar semantics of every keyword); whitespace options",
 )
@@ -153,6 +155,11 @@ def run(ctx):
     bad = [t["f"]["def"] for _, t in go.calls() if t["f"].get("def", "").rsplit("::", 1)[-1] in ("sort", "sort_by", "sort_by_key", "sort_unstable", "reverse", "swap", "dedup")
            and L.root_local(go, go.expr(t["args"][0])) is not None and go.local_name(L.root_local(go, go.expr(t["args"][0]))) == "items"]
     ctx.check(not bad, "C07-R1", "gen_json_object:items-not-reordered", "items is never sorted or reversed", "gen_json_object reorders items with %s" % bad, site=go.where())
+
+    # ---- R2: a valid token must not disappear from the mask: speculative rows are never re-used across trie
+    # branches (shared with C01-R2 / C11-R3; anchored file parser/src/earley/parser.rs)
+    from . import c11 as _c11
+    _c11.watermark_values(ctx, "C07-R2")
 
     # ---- serde_json preserve_order in the resolved build
     repo = extract.REPO
